@@ -10,7 +10,7 @@ W=/tmp/conf-$ID
 git -C /repo worktree remove --force $W 2>/dev/null; rm -rf $W
 git -C /repo worktree add -q --detach $W HEAD || exit 2
 cp $OUT/demo_test.go $W/leader/zz_demo_test.go
-TESTNAME=$(grep -o 'func TestDemo[A-Za-z0-9_]*' $OUT/demo_test.go | head -1 | sed 's/func //')
+TESTNAME=$(grep -o '^func Test[A-Za-z0-9_]*' $OUT/demo_test.go | grep -i demo | head -1 | sed 's/func //')
 RACEFLAG=""; [ "${RACE:-0}" = 1 ] && RACEFLAG="-race"
 run_demo() { (cd $W && go test $RACEFLAG -vet=off -count=1 -timeout 300s -run "^$TESTNAME\$" ./leader/ >/tmp/conf-$ID.log 2>&1); }
 okw=0; for i in 1 2 3; do run_demo && okw=$((okw+1)); done
